@@ -30,3 +30,6 @@ chk("C02", "tracer", "exploration", "property-based testing (Hypothesis) over sy
 chk("C18", "tracer", "exploration", "property-based testing over programs x sampling rates x RNG seeds with the C02 ground-truth oracle per logged trace; exact binomial acceptance test for the traced fraction",
     "With sample_rate None/1 the full C02 oracle; otherwise every logged trace is faithful to a real call, at most one per call, unsampled calls leave no residue; the traced fraction of 40k (quick) / 200k (thorough) plain calls lies in an exact binomial interval for p=1/N.",
     "global `random` seeded from a drawn integer; the mid-life generator trace is a listed finding with a structural matcher", "DESIGN.md 4/C18")
+chk("C03", "tracer", "exploration", "differential testing (identical workload untraced vs traced: results, exceptions, stdout, hook journal) over an exhaustive tripwire x role table, exhaustive single/double fault injection, and Hypothesis-generated programs with tripwire arguments",
+    "17 tripwire kinds x 15 roles x k in {0,3} exhaustively plus generated programs: traced and untraced runs agree on results, exceptions, output and on the journal of user hooks; every single/double logger fault, flush fault and inspection-fault object x exit by return/exception x pre-installed profiler is contained, the profiler is restored, flush runs once and later calls are still traced.",
+    "in-process comparison; two listed findings (function lookup probing program objects, metaclass __hash__/__eq__ via typing)", "DESIGN.md 4/C03")
